@@ -249,3 +249,59 @@ def early_exit_obs(ctx, fams, rule: str) -> List[Ob]:
                 else:
                     obs.append(inconclusive(rule, t, where, text, construct=ckey))
     return obs
+
+
+# ----------------------------------------------------------------------------------------------
+# numpy arithmetic in the Python kernels (R18.10)
+# ----------------------------------------------------------------------------------------------
+def numpy_arithmetic_obs(ctx, fams, rule: str) -> List[Ob]:
+    """The Python kernels compute on numpy scalars: `0.0/0.0` at an event where both trains end is nan (and the entry is
+    trimmed or overwritten afterwards), exactly as in the compiled copy under cdivision.  With plain Python floats the
+    same expression raises ZeroDivisionError.  Obligation: no array parameter of a Python kernel (or an alias of one)
+    is converted to Python numbers - `.tolist()`, `list(p)`, `[float(x) for x in p]`, `map(float, p)`."""
+    obs: List[Ob] = []
+    for f in fams:
+        if f is None:
+            continue
+        k = f.py
+        if k is None:
+            continue
+        params = {a.arg for a in k.node.args.args}
+        alias = set(params)
+        for _ in range(3):
+            for n in ast.walk(k.node):
+                if isinstance(n, ast.Assign) and len(n.targets) == 1 and isinstance(n.targets[0], ast.Name):
+                    v = n.value
+                    while isinstance(v, ast.Call) and v.args and (C.dotted(v.func) or '') in ('np.asarray', 'np.array', 'np.ascontiguousarray'):
+                        v = v.args[0]
+                    if isinstance(v, ast.Name) and v.id in alias:
+                        alias.add(n.targets[0].id)
+        bad = []
+        for n in ast.walk(k.node):
+            if isinstance(n, ast.Call):
+                if isinstance(n.func, ast.Attribute) and n.func.attr == 'tolist':
+                    b = n.func.value
+                    while isinstance(b, ast.Call) and b.args:
+                        b = b.args[0]
+                    if isinstance(b, ast.Name) and b.id in alias:
+                        bad.append(n)
+                elif isinstance(n.func, ast.Name) and n.func.id in ('list', 'tuple') and len(n.args) == 1 \
+                        and isinstance(n.args[0], ast.Name) and n.args[0].id in alias:
+                    bad.append(n)
+                elif isinstance(n.func, ast.Name) and n.func.id == 'map' and len(n.args) == 2 and isinstance(n.args[0], ast.Name) \
+                        and n.args[0].id == 'float' and isinstance(n.args[1], ast.Name) and n.args[1].id in alias:
+                    bad.append(n)
+            elif isinstance(n, (ast.ListComp, ast.GeneratorExp)) and isinstance(n.elt, ast.Call) and isinstance(n.elt.func, ast.Name) \
+                    and n.elt.func.id == 'float' and len(n.generators) == 1 and isinstance(n.generators[0].iter, ast.Name) \
+                    and n.generators[0].iter.id in alias:
+                bad.append(n)
+        t = (f"{k.name} ({k.path}): the kernel computes on the numpy values of its array arguments (0.0/0.0 is nan there, as in the "
+             f"compiled copy; with Python floats it raises)")
+        if bad:
+            for n in bad:
+                obs.append(violation(rule, t, k.loc(n), key=f"{_fn(k)}::python-numbers::{ast.unparse(n)[:50]}",
+                                     detail=f"`{ast.unparse(n)[:80]}` turns the spike times into Python floats: a division 0.0/0.0 that numpy "
+                                            f"answers with nan (trimmed afterwards) raises ZeroDivisionError"))
+        else:
+            obs.append(ok(rule, t, k.loc(), construct=f"{_fn(k)}::numpy-values"))
+    return obs
